@@ -490,6 +490,31 @@ func c20Bodies() []c20Body {
 			}
 			return obs(out.Bytes())
 		}},
+		{Name: "DecodeFile(lazy mdat)-Info-ReadData-Encode", Run: func(in *c20Inputs, t *sched.T, fine bool) string {
+			t.Point()
+			r := rs(in.Clear, t, fine)
+			f, err := mp4.DecodeFile(r, mp4.WithDecodeMode(mp4.DecModeLazyMdat))
+			if err != nil {
+				return obs("err", err)
+			}
+			t.Point()
+			var info bytes.Buffer
+			_ = f.Info(&info, "", "", " ")
+			var data [][]byte
+			for _, s := range f.Segments {
+				for _, fr := range s.Fragments {
+					t.Point()
+					if n := fr.Mdat.DataLength(); n > 0 {
+						d, err := fr.Mdat.ReadData(int64(fr.Mdat.PayloadAbsoluteOffset()), int64(n), r)
+						data = append(data, d, []byte(fmt.Sprint(err)))
+					}
+				}
+			}
+			t.Point()
+			var out bytes.Buffer
+			err = f.Encode(wr(&out, t, fine))
+			return obs(info.Bytes(), fmt.Sprint(data), out.Bytes(), err)
+		}},
 		{Name: "DecodeFileSR(shared bytes)-Decrypt", Writes: true, Run: func(in *c20Inputs, t *sched.T, fine bool) string {
 			key, _ := hexDecode(c20Key)
 			t.Point()
@@ -825,7 +850,7 @@ func runC20(c *vf.Ctx) {
 			}
 		}
 	}
-	c.Rule = "stateless exploration of the real code under a cooperative scheduler (internal/sched): bodies = {DecodeFileSR->Info->EncodeSW, DecodeFile->Encode, DecodeFile->InitProtect/EncryptFragment->Encode, DecodeFile->DecryptInit/DecryptSegment->Encode, Annex B conversion + SPS/PPS/slice/SEI/ADTS parsing, DecodeFileSR(own copy)->decrypt cbcs, DecodeFile(*bytes.Buffer over the shared bytes, 64-bit mdat headers)->encrypt / ->decrypt, DecodeFileSR(shared bytes)->decrypt}, each on its own objects over the same shared input bytes. Scheduling points: every method call on the yielding io.ReadSeeker / io.Writer / bits.SliceReader / bits.SliceWriter wrappers and every API-call boundary. Explored: every pair of bodies (incl. a body with itself) with all interleavings at call granularity (unbounded) and all schedules with <= 1 (thorough: 2) pre-emptions at I/O granularity; triples at call granularity with <= 2 pre-emptions. Oracle on every schedule: each body's observations (output bytes, Info text, parsed structures, errors) equal its solo run, SHA-1 of all shared inputs unchanged, deep fingerprint of every package-level variable of mp4/avc/hevc/bits/sei/aac/av1 (generated accessors) unchanged. Separate free-running pass: the same bodies in 16 goroutines under the race detector."
+	c.Rule = "stateless exploration of the real code under a cooperative scheduler (internal/sched): bodies = {DecodeFileSR->Info->EncodeSW, DecodeFile->Encode, DecodeFile->InitProtect/EncryptFragment->Encode, DecodeFile->DecryptInit/DecryptSegment->Encode, Annex B conversion + SPS/PPS/slice/SEI/ADTS parsing, DecodeFileSR(own copy)->decrypt cbcs, DecodeFile(*bytes.Buffer over the shared bytes, 64-bit mdat headers)->encrypt / ->decrypt, DecodeFile in lazy-mdat mode->Info->ReadData->Encode, DecodeFileSR(shared bytes)->decrypt}, each on its own objects over the same shared input bytes. Scheduling points: every method call on the yielding io.ReadSeeker / io.Writer / bits.SliceReader / bits.SliceWriter wrappers and every API-call boundary. Explored: every pair of bodies (incl. a body with itself) with all interleavings at call granularity (unbounded) and all schedules with <= 1 (thorough: 2) pre-emptions at I/O granularity; triples at call granularity with <= 2 pre-emptions. Oracle on every schedule: each body's observations (output bytes, Info text, parsed structures, errors) equal its solo run, SHA-1 of all shared inputs unchanged, deep fingerprint of every package-level variable of mp4/avc/hevc/bits/sei/aac/av1 (generated accessors) unchanged. Separate free-running pass: the same bodies in 16 goroutines under the race detector."
 	c.Bound = fmt.Sprintf("%d combinations; pre-emption bound %d at I/O granularity", len(combos), fineBound)
 	var mu sync.Mutex
 	var total int64
@@ -851,7 +876,20 @@ func runC20(c *vf.Ctx) {
 				req, _ := json.Marshal(map[string]interface{}{"combo": cb, "deadline_unix": deadline})
 				p.in.Write(append(req, '\n'))
 				if p.in.Flush() != nil || !p.out.Scan() {
-					vf.Harness("c20 worker died on combination %+v", cb)
+					// the worker process died while exploring this combination (fatal runtime error, out of memory,
+					// deadlock of all goroutines): on the unchanged tree this never happens, so it is a finding about the
+					// combination, not about the harness; continue with a fresh worker
+					var names []string
+					for _, b := range cb.Bodies {
+						names = append(names, bodies[b].Name)
+					}
+					c.Fail("worker process died while exploring a combination", "goroutines working on their own objects do not take the process down", map[string]interface{}{"combo": cb, "bodies": names})
+					p.kill()
+					p = procStart("c20")
+					mu.Lock()
+					incomplete++
+					mu.Unlock()
+					continue
 				}
 				var rep c20Report
 				if err := json.Unmarshal(p.out.Bytes(), &rep); err != nil {
@@ -956,6 +994,15 @@ func c20RacePass(c *vf.Ctx, bodies []c20Body) {
 		reports := strings.Count(string(out), "WARNING: DATA RACE")
 		c.Add("race_pass_reports_"+which, int64(reports))
 		if !strings.Contains(string(out), "race pass done") {
+			if reports > 0 || strings.Contains(string(out), "fatal error:") || strings.Contains(string(out), "panic:") {
+				// the free-running goroutines took the process down (e.g. "fatal error: concurrent map writes")
+				what := "fatal error"
+				if i := strings.Index(string(out), "fatal error:"); i >= 0 {
+					what = strings.SplitN(string(out)[i:], "\n", 2)[0]
+				}
+				c.Fail("free-running goroutines crash the process: "+what, "free of data races", map[string]interface{}{"race_pass": which, "reports": reports, "output_tail": string(clipN(out, 3000))})
+				continue
+			}
 			vf.Harness("race pass (%s) did not complete: %v\n%s", which, err, clipN(out, 4000))
 		}
 		if reports == 0 {
